@@ -122,7 +122,7 @@ def check(run):
     # larger capacity than the request (C08 clause) and branch-targeted samples up to j=400
     tg = targeted(rng, 150 if quick else 1200, 400)
     cases += [(j2 + rng.randint(0, 3), j3 + rng.randint(0, 3), j2, j3, m2, m3) for (_, j2, j3, m2, m3) in tg]
-    kern.corr_w3j(run, cases)
+    run.attempt("corr:corr_w3j", kern.corr_w3j, run, cases)
     # front ends vs model
     lines, exp = [], []
     import spherical
